@@ -1,18 +1,23 @@
 """Regenerate every translator output from REPO's working tree into a coq/gen directory.
-Used by setup (into /verif/coq/gen) and by each check (into its private copy)."""
+Used by setup (into /verif/coq/gen); each check regenerates what it needs into its private copy.
+
+Auto-discovery: every tools/tr_*.py that defines `gen(repo) -> (files: dict name->text, meta)`
+is run; a translator that rejects the source is reported and skipped here (the property's own
+check reports it as a broken obligation)."""
+import glob
+import importlib
+import os
 import sys
 sys.path.insert(0, "/verif/tools")
 
 
-def generators():
-    import tr_core
-    return {"core": tr_core}
-
-
-def gen_core(repo):
-    import tr_core
-    q, f, meta = tr_core.emit(repo)
-    return {"CoreQ.v": q, "CoreF.v": f}, meta
+def translators():
+    out = {}
+    for p in sorted(glob.glob("/verif/tools/tr_*.py")):
+        m = importlib.import_module(os.path.basename(p)[:-3])
+        if hasattr(m, "gen"):
+            out[m.__name__] = m
+    return out
 
 
 if __name__ == "__main__":
@@ -20,10 +25,17 @@ if __name__ == "__main__":
     out = pathlib.Path(sys.argv[1] if len(sys.argv) > 1 else "/verif/coq/gen")
     repo = sys.argv[2] if len(sys.argv) > 2 else "/repo"
     out.mkdir(parents=True, exist_ok=True)
-    for fn in (gen_core,):
-        files, _meta = fn(repo)
+    bad = 0
+    for name, m in translators().items():
+        try:
+            files, _meta = m.gen(repo)
+        except Exception as e:     # fail closed: no file is written for this translator
+            print("translator %s rejected the source: %r" % (name, e))
+            bad += 1
+            continue
         for n, t in files.items():
             p = out / n
             if not p.exists() or p.read_text() != t:
                 p.write_text(t)
     print("generated into", out)
+    sys.exit(1 if bad else 0)
